@@ -4,6 +4,7 @@ import (
 	"go/ast"
 	"go/token"
 	"go/types"
+	"strings"
 
 	"sialint/internal/cfgx"
 	"sialint/internal/ir"
@@ -1273,5 +1274,244 @@ func c15r8(c *Ctx) {
 	}
 	if n == 0 {
 		ir.Fail("no balance store inside a loop over deposits found in the contractors' credit methods")
+	}
+}
+
+func init() {
+	register(&Rule{ID: "C05.R12", Prop: "C05", Floor: 1, Doc: "a set is answered 'known' only when every member is pooled, so a new member is never dropped as known (same check as C14.R6)", Run: c14r6})
+	register(&Rule{ID: "C07.R11", Prop: "C07", Floor: 4, Doc: "the wallet's apply / revert steps move the stored elements' proofs on every success path, so a later spend carries proofs valid at the tip (same check as C06.R1)", Run: c06r1})
+	register(&Rule{ID: "C07.R12", Prop: "C07", Floor: 1, Doc: "a broadcast set is persisted with the basis and the transactions it was added to the pool with", Run: c07r12})
+	register(&Rule{ID: "C18.R12", Prop: "C18", Floor: 1, Doc: "work bound to the thread group's context is also registered with it (WithContext only behind a successful Add), so Close waits for it", Run: c18r12})
+	add := func(prop, text string) { Explanations[prop] += " " + text }
+	add("C05", "(R12) the flag the set checker returns as 'known' is a conjunction over the whole set (the check of C14.R6): a set whose last member is pooled but an earlier one is new must not be dropped as known.")
+	add("C07", "(R11) the wallet's apply and revert steps update the stored elements' proofs before every success return (the check of C06.R1) — a spend funded later carries those proofs; (R12) where the wallet records a broadcast set for re-broadcast, the Basis and Transactions stored are the very values handed to the pool's AddV2PoolTransactions on the dominating success edge: the proofs inside the transactions are for that basis, and a set stored under another index is rejected when it is re-added after a restart, which frees its inputs for a second allocation.")
+	add("C18", "(R12) every call of ThreadGroup.WithContext (a context cancelled by Stop) lies behind the success edge of ThreadGroup.Add in the same function: a goroutine that is merely cancelled is not waited for, so Close returns while it still runs.")
+}
+
+// c07r12: `AddV2PoolTransactions(index, txns)` then `store.AddBroadcastedSet(BroadcastedSet{Basis: index, Transactions:
+// txns})` — the pair that is stored is the pair that was accepted.
+func c07r12(c *Ctx) {
+	addSet := c.P.Method("wallet", "SingleAddressStore", "AddBroadcastedSet")
+	addPool := c.P.Method("wallet", "ChainManager", "AddV2PoolTransactions")
+	n := 0
+	for _, f := range walletMethods(c) {
+		for _, call := range f.CallsTo(false, addSet) {
+			if len(call.Expr.Args) != 1 {
+				continue
+			}
+			n++
+			g := f.Graph()
+			c.VisitGraph(f)
+			ob := c.Ob(f, "stored-set-is-the-accepted-set", call.Pos())
+			lit, ok := ast.Unparen(origin(f, call.Expr.Args[0])).(*ast.CompositeLit)
+			if !ok {
+				ob.Unknown("the set stored at %s is not built by a literal in %s", c.P.Pos(call.Pos()), f.Name())
+				continue
+			}
+			var basis, txns types.Object
+			for _, el := range lit.Elts {
+				if kv, isKV := el.(*ast.KeyValueExpr); isKV {
+					if k, isID := kv.Key.(*ast.Ident); isID {
+						switch k.Name {
+						case "Basis":
+							basis = f.ObjOf(ast.Unparen(kv.Value))
+						case "Transactions":
+							txns = f.ObjOf(ast.Unparen(kv.Value))
+						}
+					}
+				}
+			}
+			nd := g.NodeContaining(call.Pos())
+			good := false
+			for _, pc := range f.CallsTo(false, addPool) {
+				if len(pc.Expr.Args) != 2 {
+					continue
+				}
+				b, t := f.ObjOf(ast.Unparen(pc.Expr.Args[0])), f.ObjOf(ast.Unparen(pc.Expr.Args[1]))
+				if basis != nil && txns != nil && b == basis && t == txns && f.OnlyVia(nd, f.CheckOf(pc.Expr).Succ) {
+					good = true
+				}
+			}
+			ob.Check(good, nil, "the set recorded for re-broadcast at %s is not (basis, transactions) exactly as accepted by the pool on the dominating success edge of AddV2PoolTransactions: the transactions' proofs are for the basis they were submitted with; stored under another index the set is rejected when it is re-added after a restart or a tip change, the reservation is gone, and the same outputs fund a second transaction", c.P.Pos(call.Pos()))
+		}
+	}
+	if n == 0 {
+		ir.Fail("no call of SingleAddressStore.AddBroadcastedSet found in the wallet")
+	}
+}
+
+// c18r12: tg.AddContext = tg.Add + tg.WithContext. Using WithContext alone gives a goroutine that Stop cancels but
+// does not wait for.
+func c18r12(c *Ctx) {
+	with := c.P.Method("threadgroup", "ThreadGroup", "WithContext")
+	add := c.P.Method("threadgroup", "ThreadGroup", "Add")
+	addCtx := c.P.Method("threadgroup", "ThreadGroup", "AddContext")
+	n := 0
+	for _, f := range c.P.Funcs {
+		if f.View || f.Body == nil {
+			continue
+		}
+		if pos := c.P.Pos(f.Body.Pos()); strings.Contains(pos, "_test.go") {
+			continue
+		}
+		for _, call := range f.CallsTo(false, with) {
+			n++
+			g := f.Graph()
+			c.VisitGraph(f)
+			ob := c.Ob(f, "context-bound-work-is-registered", call.Pos())
+			var ok []*cfgx.Edge
+			for _, ac := range f.CallsTo(false, add, addCtx) {
+				ok = append(ok, f.CheckOf(ac.Expr).Succ...)
+			}
+			nd := g.NodeContaining(call.Pos())
+			ob.Check(nd != nil && len(ok) > 0 && f.OnlyVia(nd, ok), nil, "%s binds its work to the thread group's context at %s without having registered it (no successful ThreadGroup.Add on the way): Stop cancels the context but does not wait for this goroutine, so Close returns while it is still inside a store, chain or network call", f.Name(), c.P.Pos(call.Pos()))
+		}
+	}
+	if n == 0 {
+		ir.Fail("ThreadGroup.WithContext is not called anywhere (not even by AddContext) — anchor lost")
+	}
+}
+
+func init() {
+	register(&Rule{ID: "C19.R6", Prop: "C19", Floor: 1, Doc: "where only a block's header is needed the store is asked for the header: no body lookup is used solely through header data", Run: c19r6})
+	register(&Rule{ID: "C19.R7", Prop: "C19", Floor: 1, Doc: "a list filled from body lookups (which miss for pruned blocks) is subscripted only behind a test that it is not empty", Run: c19r7})
+	Explanations["C19"] += " (R6) in chain.Manager every block obtained from Store.Block (which reports pruned bodies as not found) is used for more than its header (Header(), ParentID, Timestamp, Nonce): a lookup that needs the header only must use Store.Header, which header-only records answer — otherwise serving headers fails for every height below the prune point. (R7) in the Manager methods that look bodies up, an element access L[c] / L[len(L)…] of a local list that is filled by appends lies behind the non-empty side of a test of len(L): with every looked-up body pruned the list is empty and the access panics."
+}
+
+// c19r6: Store.Block answers "not found" for a pruned block although its header is still stored.
+func c19r6(c *Ctx) {
+	r := getChainRoles(c.P)
+	headerOnly := map[string]bool{"Header": true, "ParentID": true, "Timestamp": true, "Nonce": true}
+	n := 0
+	for _, f := range r.methodsV {
+		for _, call := range f.CallsTo(false, r.storeBlock) {
+			nd := f.Graph().NodeContaining(call.Pos())
+			if nd == nil {
+				continue
+			}
+			as, ok := nd.AST.(*ast.AssignStmt)
+			if !ok || len(as.Lhs) < 1 {
+				continue
+			}
+			blk := f.ObjOf(as.Lhs[0])
+			if blk == nil || blk.Name() == "_" {
+				continue
+			}
+			full, hdr := 0, 0
+			var walk func(x ast.Node, parent ast.Node)
+			seen := map[ast.Node]bool{}
+			ast.Inspect(f.Body, func(y ast.Node) bool {
+				if sel, isSel := y.(*ast.SelectorExpr); isSel {
+					if id, isID := ast.Unparen(sel.X).(*ast.Ident); isID && f.ObjOf(id) == blk {
+						seen[id] = true
+						if headerOnly[sel.Sel.Name] {
+							hdr++
+						} else {
+							full++
+						}
+					}
+				}
+				return true
+			})
+			_ = walk
+			ast.Inspect(f.Body, func(y ast.Node) bool {
+				if id, isID := y.(*ast.Ident); isID && !seen[id] && f.Info().Uses[id] == blk {
+					full++ // passed on, copied, returned: a use of the whole block
+				}
+				return true
+			})
+			if full+hdr == 0 {
+				continue
+			}
+			n++
+			c.VisitGraph(f)
+			ob := c.Ob(f, "body-lookup-needs-the-body", call.Pos())
+			ob.Check(full > 0, nil, "%s looks a block up with Store.Block at %s and uses nothing but its header: Store.Block reports a pruned block as not found, so this fails for every block below the prune height although the header is still stored (Store.Header answers from header-only records)", f.Name(), c.P.Pos(call.Pos()))
+		}
+	}
+	if n == 0 {
+		ir.Fail("no use of a block obtained from Store.Block found in chain.Manager")
+	}
+}
+
+// c19r7: `prevFees[len(prevFees)/2]` after a loop that appends only for bodies that were found.
+func c19r7(c *Ctx) {
+	r := getChainRoles(c.P)
+	n := 0
+	for _, f := range r.methodsV {
+		if !f.MentionsObj(f.Body, false, r.storeBlock) && len(f.CallsTo(false, r.storeBlock)) == 0 {
+			continue
+		}
+		g := f.Graph()
+		// local lists filled by append
+		filled := map[types.Object]bool{}
+		for _, w := range f.WritesIn(f.Body, false) {
+			ac, isCall := ast.Unparen(w.RHS).(*ast.CallExpr)
+			if w.RHS == nil || !isCall {
+				continue
+			}
+			if id, isID := ac.Fun.(*ast.Ident); isID && id.Name == "append" && len(ac.Args) >= 2 {
+				if o, isVar := f.ObjOf(ast.Unparen(w.LHS)).(*types.Var); isVar && !o.IsField() && f.ObjOf(ac.Args[0]) == types.Object(o) {
+					filled[o] = true
+				}
+			}
+		}
+		for _, nd := range g.Nodes {
+			if nd.AST == nil {
+				continue
+			}
+			ir.Walk(nd.AST, false, func(x ast.Node) {
+				ix, ok := x.(*ast.IndexExpr)
+				if !ok {
+					return
+				}
+				list := f.ObjOf(ast.Unparen(ix.X))
+				if list == nil || !filled[list] {
+					return
+				}
+				positional := false
+				if _, isConst := f.ConstInt(ix.Index); isConst {
+					positional = true
+				}
+				ast.Inspect(ix.Index, func(y ast.Node) bool {
+					if e, isExpr := y.(ast.Expr); isExpr {
+						if l := lenOf(f, e); l != nil && f.ObjOf(ast.Unparen(l)) == list {
+							positional = true
+						}
+					}
+					return true
+				})
+				if !positional {
+					return
+				}
+				n++
+				c.VisitGraph(f)
+				ob := c.Ob(f, "subscript-behind-non-empty-test:"+list.Name(), ix.Pos())
+				var nonEmpty []*cfgx.Edge
+				isLen := func(e ast.Expr) bool {
+					l := lenOf(f, e)
+					return l != nil && f.ObjOf(ast.Unparen(l)) == list
+				}
+				for _, m := range g.Nodes {
+					for _, e := range m.Succs {
+						if e.Cond == nil || (e.Kind != cfgx.True && e.Kind != cfgx.False) {
+							continue
+						}
+						// the complement of "len(L) is zero"
+						other := &cfgx.Edge{From: e.From, To: e.To, Cond: e.Cond, Kind: cfgx.True}
+						if e.Kind == cfgx.True {
+							other.Kind = cfgx.False
+						}
+						if edgeEstablishesZero(f, other, isLen) {
+							nonEmpty = append(nonEmpty, e)
+						}
+					}
+				}
+				ob.Check(len(nonEmpty) > 0 && f.OnlyVia(nd, nonEmpty), nil, "%s subscripts %s at %s without a preceding test that the list is not empty: the list is filled only for bodies the store still has, so after pruning past the blocks it looks at the access panics (index out of range) instead of the call answering", f.Name(), list.Name(), c.P.Pos(ix.Pos()))
+			})
+		}
+	}
+	if n == 0 {
+		ir.Fail("no positional access of an append-filled list in the Manager methods that look bodies up")
 	}
 }
